@@ -1,0 +1,9 @@
+//go:build verif
+
+package validator
+
+// Exports for the verification harness (build tag verif).
+
+func VerifLexicalDistance(a, b string) int { return lexicalDistance(a, b) }
+
+func VerifCalcThreshold(a string) int { return calcThreshold(a) }
